@@ -557,7 +557,7 @@ func main() {
 	r := hlib.NewRand(cfg.Seed)
 	nRT, nRW, nCtor, nPP, nEv, nCli, nRepl := 4000, 1500, 800, 4000, 500, 60, 8
 	if cfg.Thorough() { // per shard
-		nRT, nRW, nCtor, nPP, nEv, nCli, nRepl = 30000, 8000, 3000, 40000, 5000, 500, 80
+		nRT, nRW, nCtor, nPP, nEv, nCli, nRepl = 30000, 8000, 3000, 40000, 3500, 400, 80
 	}
 
 	// developer switch: C11_ONLY=rt,rw,ctor,ev,cli,repl restricts the generated part (never set by ./check)
